@@ -123,3 +123,43 @@ Example strict_example :
     (EBin BAdd (ECall (EName [103] 1 0) [] false false) (EBin BAdd (ECall (EName [102] 1 0) [] false false) (ECall (EName [103] 1 0) [] false false) 1 0) 1 0) []
   = (Err (CUser 1), [(3, []); (7, [])]).
 Proof. vm_compute. reflexivity. Qed.
+
+(* ---- a failing USER FUNCTION (Proofs/UserFailPrefix.v): the same evaluation / render with ANY user functions call_fn
+   and with the same functions except that every call selected by P that reaches the function body fails with the
+   sentinel error sn.  Either the failing call is never reached and NOTHING differs, or the result is exactly that
+   cause, evaluation stopped AT the failing call (it is the last entry of the log, and the log is the part of the
+   unmodified run's log up to it), what reached the writer is a PREFIX of what the unmodified render writes, and
+   nothing was written afterwards.  (total P call_fn = P restricted to calls whose arguments reflect accepts; the
+   restriction is necessary: UserFailPrefix.badargs_counterexample.) *)
+From Tpl Require Import Proofs.UserFailPrefix.
+Theorem eval_user_failure : forall methods call_fn P sn sc e lg r lg1 r' lg1',
+  eval methods call_fn sc e lg = (r, lg1) ->
+  eval methods (inject (total P call_fn) sn call_fn) sc e lg = (r', lg1') ->
+  (r' = r /\ lg1' = lg1) \/
+  (r' = Err (CUser sn) /\
+   exists id args lgk, P id args = true /\ call_fn id args <> FBadArgs /\ lg1' = (id, args) :: lgk /\
+     (exists d', lgk = d' ++ lg) /\ exists d, lg1 = d ++ lg1').
+Proof. exact UserFailPrefix.eval_user_failure_total. Qed.
+Theorem user_failure_prefix :
+  forall is_space to_lower is_letter is_udigit methods call_fn mgr P sn fuel tp data t st o r t1 s1 o' r' t1' s1',
+  execute is_space to_lower is_letter is_udigit methods call_fn mgr fuel tp data t st = (o, r, t1, s1) ->
+  execute is_space to_lower is_letter is_udigit methods (inject (total P call_fn) sn call_fn) mgr fuel tp data t st
+    = (o', r', t1', s1') ->
+  (o' = o /\ r' = r /\ t1' = t1 /\ s1' = s1) \/
+  (r' = RErr (RC (CUser sn)) /\ (exists rest, o = o' ++ rest) /\
+   exists id args lgk, P id args = true /\ call_fn id args <> FBadArgs /\ r_log s1' = (id, args) :: lgk /\
+     (exists d', lgk = d' ++ r_log st) /\ exists later, r_log s1 = later ++ r_log s1').
+Proof. exact UserFailPrefix.user_failure_prefix_total. Qed.
+(* for any node, mask, scope, condition table, writer budget (under runs_body: P selects no call that reflect rejects) *)
+Theorem user_failure_prefix_node : forall methods call_fn P sn, runs_body P call_fn ->
+  forall is_space to_lower is_letter is_udigit mgr fuel mask ctx n sc top t st o r t1 s1 o' r' t1' s1',
+  exec_node is_space to_lower is_letter is_udigit methods call_fn mgr fuel mask ctx n sc top t st = (o, r, t1, s1) ->
+  exec_node is_space to_lower is_letter is_udigit methods (inject P sn call_fn) mgr fuel mask ctx n sc top t st = (o', r', t1', s1') ->
+  (o' = o /\ r' = r /\ t1' = t1 /\ s1' = s1) \/
+  (r' = RErr (RC (CUser sn)) /\ (exists rest, o = o' ++ rest) /\
+   exists id args lgk, P id args = true /\ r_log s1' = (id, args) :: lgk /\
+     (exists d', lgk = d' ++ r_log st) /\ exists later, r_log s1 = later ++ r_log s1').
+Proof. exact UserFailPrefix.user_failure_prefix_node. Qed.
+Print Assumptions eval_user_failure.
+Print Assumptions user_failure_prefix.
+Print Assumptions user_failure_prefix_node.
